@@ -82,10 +82,17 @@ def long_keys(as_str, byte_values=range(256), lengths=(249, 250, 251), stride=1)
                 yield k.decode("latin1") if as_str else bytes(k)
 
 
-def boundary_keys(prefix_len):
+def boundary_keys(prefix_len, prefix=None):
     """Keys whose encoded length straddles 250 - prefix_len, for 1-,2-,3-,4-byte characters."""
     room = 250 - prefix_len
     out = []
+    if prefix is not None and prefix:
+        # keys that begin with the prefix bytes themselves (must still be prefixed on the wire)
+        try:
+            ps = prefix.decode("ascii")
+            out += [ps, ps + "k", ps + ps, prefix, prefix + b"k", prefix + prefix]
+        except UnicodeDecodeError:
+            out += [prefix, prefix + b"k"]
     for ch in ("a", "é", "€", "\U0001F600"):
         w = len(ch.encode("utf8"))
         for total in range(room - 5, room + 6):
